@@ -257,7 +257,7 @@ theorem c07_submitter_shape :
 
 example : "        case out <- ids[submitter]" ∈ Gen.DosnodeFlow.choseSubmitter := by simp [Gen.DosnodeFlow.choseSubmitter]
 
-/-- the way of the signed content to the chain: `genSign` stores the content in `sign.Content` and signs exactly it; `dispatchSign` forwards the message unchanged; `recoverSign` recovers and verifies over `sign.Content`, then reports `Content: queryResult` = the first `len(Content) - addrLen` bytes (`make` + `copy`); `reportQueryResult` hands that message to `UpdateRandomness` / `DataReturn` unchanged. -/
+/-- the way of the signed content to the chain: `genSign` stores the content in `sign.Content` and signs exactly it; `dispatchSign` forwards the message unchanged – and, since /repo 7f58072, closes `out` and returns WITHOUT registering for the peers' shares when `genSign` delivered no share (`!ok || sign == nil`: the content stage of this node failed); `recoverSign` (since /repo 3a1c0bc it defers `drainSigns`, which only receives and drops) recovers and verifies over `sign.Content`, then reports `Content: queryResult` = the first `len(Content) - addrLen` bytes (`make` + `copy`); `reportQueryResult` hands that message to `UpdateRandomness` / `DataReturn` unchanged. -/
 theorem c07_sign_report_shape :
     Gen.DosnodeFlow.genSign = [
       "func genSign(ctx context.Context, contentc chan []byte, sec *share.PriShare, suite suites.Suite, sign *vss.Signature, logger log.Logger) (chan *vss.Signature, chan error)",
@@ -310,7 +310,10 @@ theorem c07_sign_report_shape :
       "      case <-ctx.Done()",
       "        close(out)",
       "        return",
-      "      case sign := <-signc",
+      "      case sign, ok := <-signc",
+      "        if !ok || sign == nil",
+      "          close(out)",
+      "          return",
       "        select",
       "          case <-ctx.Done()",
       "            close(out)",
@@ -332,6 +335,7 @@ theorem c07_sign_report_shape :
       "  go func() ()",
       "    var signShares [][]byte",
       "    var own *vss.Signature",
+      "    defer drainSigns(ctx, signc)",
       "    defer close(out)",
       "    defer close(errc)",
       "    for",
@@ -377,7 +381,18 @@ theorem c07_sign_report_shape :
     ∧ Gen.DosnodeFlow.recoverSignRefs = [
       "addrLen",
       "ctxKey",
+      "drainSigns",
       "reportErr"]
+    ∧ Gen.DosnodeFlow.drainSigns = [
+      "func drainSigns(ctx context.Context, signc chan *vss.Signature)",
+      "  for",
+      "    select",
+      "      case _, ok := <-signc",
+      "        if !ok",
+      "          return",
+      "      case <-ctx.Done()",
+      "        return"]
+    ∧ Gen.DosnodeFlow.drainSignsRefs = []
     ∧ Gen.DosnodeFlow.reportQueryResult = [
       "func reportQueryResult(ctx context.Context, chain onchain.ProxyAdapter, queryType uint32, signC chan *vss.Signature) (errc chan error)",
       "  errc = make(chan error)",
@@ -401,7 +416,7 @@ theorem c07_sign_report_shape :
       "        case <-ctx.Done()",
       "  return"]
     ∧ Gen.DosnodeFlow.reportQueryResultRefs = [] := by
-  refine ⟨?_, ?_, ?_, ?_, ?_, ?_, ?_, ?_⟩ <;> rfl
+  refine ⟨?_, ?_, ?_, ?_, ?_, ?_, ?_, ?_, ?_, ?_⟩ <;> rfl
 
 example : "            copy(queryResult, sign.Content)" ∈ Gen.DosnodeFlow.recoverSign := by simp [Gen.DosnodeFlow.recoverSign]
 
